@@ -27,6 +27,7 @@ TECHNIQUE = 'stateless bounded-exhaustive differential exploration: real tee_map
 
 BRANCHES = {
     'id': [['identity']],
+    'empty': [],                                # a branch written as an empty list: the identity pipeline
     'flt': [['filter', 'even']],
     'dup': [['map', 'dup'], ['flat_map']],
     'cnt': [['count', True]],
@@ -37,7 +38,7 @@ BRANCHES = {
     'odd': [['filter', 'odd']],
     'none': [['map', 'none_if_odd']],          # emits None as a VALUE (zip/combine_latest must not take it for 'nothing yet')
 }
-QUICK_SET = ['id', 'flt', 'cnt', 'last', 'take1', 'none']
+QUICK_SET = ['id', 'flt', 'cnt', 'last', 'take1', 'none', 'empty']
 MULTI = [('id', 'flt', 'cnt'), ('flt', 'last', 'scan'), ('take1', 'cnt', 'dup'), ('flt', 'flt', 'id'), ('last', 'cnt', 'take1'),
          ('roll', 'flt', 'last'), ('id', 'flt', 'cnt', 'last'), ('flt', 'take1', 'scan', 'cnt'), ('dup', 'flt', 'last', 'id'),
          ('cnt', 'cnt', 'cnt'), ('flt', 'id', 'flt', 'id'), ('scan', 'roll', 'flt'), ('none', 'flt', 'id'), ('cnt', 'none', 'none'),
@@ -383,6 +384,34 @@ def run_nested(case, acc):
     acc.outcomes.add(fast_hash(repr((spec, got))))
     if len(seq) >= 2:
         acc.nontrivial.add(fast_hash(repr(case)))
+    if parent == 'tee' and not (not seq and 'last' in (a, b)):
+        # the same nesting on PLAIN observables, inner tee_map as first and as last branch, with three kinds of source:
+        # a Subject, a cold rx.from_ (trampolined) and a source that emits synchronously while it is being subscribed
+        import rx
+        from ..drivers import Sink
+        outer = 'merge' if join == 'zip' else 'zip'
+        for spec_p in ([['tee_map', outer, [tee], [['count']]]], [['tee_map', outer, [['count']], [tee]]]):
+            exp_all = harness.model_all(spec_p, seq)
+            for driver in ('subject', 'cold', 'sync'):
+                if driver == 'subject':
+                    st_, en_, sk = harness.run_steps(spec_p, seq, mux=False)
+                elif driver == 'cold':
+                    st_, en_, sk = harness.run_steps_cold(spec_p, seq, mux=False)
+                else:
+                    def emit_all(o, sch, seq=seq):
+                        for x in seq:
+                            o.on_next(x)
+                        o.on_completed()
+                    sk = Sink()
+                    sk.subscribe_to(rx.create(emit_all).pipe(*opspecs.build(spec_p)))
+                acc.evals += 1
+                acc.events += len(seq) + 1
+                acc.traces += 1
+                acc.count('plain_nested_runs')
+                if sk.error is not None or sk.completed != 1 or sk.items != exp_all:
+                    out.append(viol('nested-plain-%s-source' % driver, join, 'join-' + str(harness.diff_kind(exp_all, sk.items) or 'not-completed'),
+                                    {'spec': spec_p, 'seq': seq, 'expected': exp_all, 'observed': sk.items, 'error': repr(sk.error)}))
+                    return out
     return out
 
 
